@@ -62,6 +62,7 @@ type episode struct {
 	cancel   context.CancelFunc
 	nodes    []*node
 	polls    int
+	runaway  int
 }
 
 func newEpisode() *episode {
@@ -87,6 +88,7 @@ type node struct {
 	evErr   error
 
 	answered int
+	perCall  map[int]int
 	servable map[int64]bool
 	// hostileLayout: some served commits are not laid out one slot per validator (repeated / foreign signatures). The
 	// property does not say whether such a header must be accepted, so nothing is REQUIRED of the client about them.
@@ -147,8 +149,21 @@ func (n *node) view(h int64) *types.LightBlock {
 	return b
 }
 
+// maxAnswersPerCall: no verification of a chain of <= 42 heights needs anywhere near that many requests to one node.
+// Beyond it the node stops responding, so that a client loop that does not terminate by itself (a liveness matter,
+// outside C09) cannot hang the harness; counted in episode.runaway.
+const maxAnswersPerCall = 400
+
 func (n *node) answer(h int64) (*types.LightBlock, error) {
 	n.answered++
+	if n.perCall == nil {
+		n.perCall = map[int]int{}
+	}
+	n.perCall[n.ep.call]++
+	if n.perCall[n.ep.call] > maxAnswersPerCall {
+		n.ep.runaway++
+		return nil, provider.ErrNoResponse
+	}
 	if n.silentAfter >= 0 && n.answered > n.silentAfter {
 		return nil, n.errAll
 	}
